@@ -134,7 +134,7 @@ pub(crate) fn upconvert_ufov1_robofab_data(
         #[serde(rename = "org.robofab.opentype.featureorder")]
         feature_order: Option<Vec<String>>,
         #[serde(rename = "org.robofab.opentype.features")]
-        features: Option<HashMap<String, String>>,
+        features: Option<BTreeMap<String, String>>,
     }
 
     #[derive(Debug, Deserialize)]
@@ -167,6 +167,7 @@ pub(crate) fn upconvert_ufov1_robofab_data(
         let order: Vec<String> = if let Some(feature_order) = lib_data.feature_order {
             feature_order
         } else {
+            // Without an explicit order, use sorted tags like defcon does.
             features_split.keys().cloned().collect::<Vec<String>>()
         };
 
